@@ -138,6 +138,19 @@ structure CostModel where
 def CostModel.machineCost (cm : CostModel) (k : StepKind) : Option ExBudget :=
   (cm.machine.find? (fun p => p.1 == k.costField)).map (·.2)
 
+/-- decidable check of the machine-step prices: every kind is priced, no price is negative, and every
+step other than the start-up costs at least one CPU unit (what the driver's `costpos` answers for
+the cost models the real evaluator is run with) -/
+def kindOK (cm : CostModel) (k : StepKind) : Bool :=
+  match cm.machineCost k with
+  | some c => decide (0 ≤ c.mem) && decide (0 ≤ c.cpu) && (k == .startUp || decide (1 ≤ c.cpu))
+  | none => false
+
+def allKinds : List StepKind :=
+  [.constant, .var, .lambda, .apply, .delay, .force, .builtin, .constr, .case, .startUp]
+
+def stepsPositive (cm : CostModel) : Bool := allKinds.all (kindOK cm)
+
 -- ------------------------------------------------------------------ size measures
 /-- `integer_to_ex_mem` -/
 def integerExMem (i : Int) : Int := if i = 0 then 1 else (i.natAbs.log2 / 64 + 1 : Nat)
